@@ -1064,7 +1064,7 @@ FACETS = {
         "strategy": flow_case,
         "check": check_flow,
         "minimize": minimize_flow,
-        "budget": {"quick": {"examples": 32, "shards": 8}, "thorough": {"examples": 320, "shards": 16}},
+        "budget": {"quick": {"examples": 32, "shards": 8}, "thorough": {"examples": 256, "shards": 16}},
         "nontrivial": "every case: eleven runs (in-process, fresh interpreter x2, 4 levels x {2,4} real loky workers) compared",
         "min_nontrivial": 6,
     },
